@@ -53,7 +53,38 @@ func lenAtLeast(fn *ssa.Function, target ssa.Instruction, xpath string, need int
 		}
 		return false
 	})
-	return an.Guarded(fn, target, edges)
+	if an.Guarded(fn, target, edges) {
+		return true
+	}
+	// asked inside a transparent helper about one of its parameters: every call site may carry the guard
+	if sites := an.HelperSites(fn); len(sites) > 0 && target.Parent() == fn && strings.HasPrefix(xpath, "$") {
+		k, rest := 0, ""
+		for i := 1; i < len(xpath) && xpath[i] >= '0' && xpath[i] <= '9'; i++ {
+			k = k*10 + int(xpath[i]-'0')
+			rest = xpath[i+1:]
+		}
+		for _, cs := range sites {
+			if k >= len(cs.Call.Args) || !lenAtLeast(cs.Parent(), cs, an.Path(cs.Call.Args[k])+rest, need) {
+				return false
+			}
+		}
+		return true
+	}
+	return false
+}
+
+// foundIndexOf returns the path of a slices.Index/IndexFunc call over xp whose result is known to be
+// non-negative on every path to target ("" when there is none).
+func foundIndexOf(fn *ssa.Function, target ssa.Instruction, xp string) string {
+	for _, f := range necessaryFacts(fn, target) {
+		if !strings.HasPrefix(f.L, "slices.Index") || !strings.Contains(f.L, "]("+xp+",") {
+			continue
+		}
+		if (f.Op == ">=" && f.R == "c:0") || (f.Op == ">" && f.R == "c:-1") || (f.Op == "!=" && f.R == "c:-1") {
+			return f.L
+		}
+	}
+	return ""
 }
 
 func nonNegIndex(v ssa.Value) bool {
@@ -157,6 +188,16 @@ func (d *discharger) p1(o pob) string {
 		}
 		// D2 loop induction variable bounded by len of the same value
 		if nonNegIndex(idx) {
+			// D2c fixed-size array: the bound is the array's constant length
+			at := x.Type().Underlying()
+			if pt, isP := at.(*types.Pointer); isP {
+				at = pt.Elem().Underlying()
+			}
+			if arr, isA := at.(*types.Array); isA {
+				if an.GuardedBy(fn, o.in, an.Cmp{L: ip, Op: "<", R: "c:" + strconv.FormatInt(arr.Len(), 10)}) {
+					return "D2c index " + ip + " is a non-negative loop variable dominated by " + ip + " < " + strconv.FormatInt(arr.Len(), 10) + " (the array's length)"
+				}
+			}
 			if an.GuardedBy(fn, o.in, an.Cmp{L: ip, Op: "<", R: "len(" + xp + ")"}) {
 				return "D2 index " + ip + " is a non-negative loop variable dominated by " + ip + " < len(" + xp + ")"
 			}
@@ -178,6 +219,16 @@ func (d *discharger) p1(o pob) string {
 		// D11 last element inside a range over the same slice (len >= 1 in the body)
 		if ip == "(len("+xp+")-c:1)" && inRangeBody(fn, o.in, xp) {
 			return "D11 index len(x)-1 inside the body of a range over x (len(x) >= 1 there)"
+		}
+		// D17 library search: slices.Index*(x, ·) returns -1 or a valid index of x; a found index also
+		// means x is non-empty
+		if foundIndexOf(fn, o.in, xp) != "" {
+			if ip == foundIndexOf(fn, o.in, xp) {
+				return "D17 index is the result of " + short(ip) + " behind a test that it is not negative (a valid index of x)"
+			}
+			if ip == "(len("+xp+")-c:1)" {
+				return "D17 index len(x)-1 behind a successful slices.Index* search of x (x is non-empty)"
+			}
 		}
 		// D4 index is e % len(x)
 		if strings.HasSuffix(ip, "%len("+xp+"))") && strings.HasPrefix(ip, "(") {
@@ -231,6 +282,9 @@ func (d *discharger) p1(o pob) string {
 	if hi != nil && lo == nil && hip == "(len("+xp+")-c:1)" && inRangeBody(fn, o.in, xp) {
 		return "D11 slice x[:len(x)-1] inside the body of a range over x (len(x) >= 1 there)"
 	}
+	if hi != nil && lo == nil && hip == "(len("+xp+")-c:1)" && foundIndexOf(fn, o.in, xp) != "" {
+		return "D17 slice x[:len(x)-1] behind a successful slices.Index* search of x (x is non-empty)"
+	}
 	if hi != nil && (lo == nil || lop == "c:0") {
 		// D16 descending prefix re-slice: x[0:i] with i >= 0 and i <= len(x) at loop entry and only decreasing
 		if phi, ok := hi.(*ssa.Phi); ok {
@@ -282,6 +336,16 @@ func (d *discharger) descendingPrefix(fn *ssa.Function, at ssa.Instruction, phi 
 	// init = phi [k | len(x)] where the k edge comes from a block behind k <= len(x)
 	ip, ok := init.(*ssa.Phi)
 	if !ok {
+		// min(k, len(x)) through the builtin
+		if call, isCall := init.(*ssa.Call); isCall {
+			if b, isB := call.Call.Value.(*ssa.Builtin); isB && b.Name() == "min" {
+				for _, a := range call.Call.Args {
+					if an.Path(a) == "len("+xp+")" {
+						return true
+					}
+				}
+			}
+		}
 		return an.Path(init) == "len("+xp+")"
 	}
 	for i, e := range ip.Edges {
@@ -703,7 +767,10 @@ func (d *discharger) p2(o pob) string {
 		}
 	case "(*Coordinate).DistanceTo", "(*Coordinate).ApplyForce":
 		// the documented rejection; unreachable when every reachable call site has compatible operands
-		sites := d.allCallSites(o.fn)
+		var sites []ssa.Instruction
+		for _, ow := range an.Owners(o.fn) { // the panic may sit in a new helper of the known function
+			sites = append(sites, d.allCallSites(ow)...)
+		}
 		n := 0
 		for _, s := range sites {
 			if !d.reach[s.Parent()] {
@@ -838,6 +905,40 @@ func (d *discharger) p3(o pob) string {
 				if f.L == "invoke:EventType($1)" && f.Op == "==" && strings.HasPrefix(f.R, "c:") {
 					accepted[f.R] = true
 					got = true
+				}
+			}
+			if ph, isPhi := v.(*ssa.Phi); !got && isPhi && ph.Block() == r.Block() {
+				// `return t == A || t == B || ...`: one way per operand of the phi
+				got = true
+				ef := an.EdgeFacts(handle)
+				for i, e := range ph.Edges {
+					if an.IsConstBool(e, false) {
+						continue
+					}
+					var facts []an.Cmp
+					if an.IsConstBool(e, true) {
+						pred := ph.Block().Preds[i]
+						for k, sc := range pred.Succs {
+							if sc == ph.Block() {
+								facts = append(facts, ef[an.Edge{From: pred, Succ: k}]...)
+							}
+						}
+					} else {
+						facts = an.CondFacts(e, true)
+					}
+					if pred := ph.Block().Preds[i]; len(pred.Instrs) > 0 {
+						facts = append(facts, necessaryFacts(handle, pred.Instrs[len(pred.Instrs)-1])...)
+					}
+					one := false
+					for _, f := range facts {
+						if f.L == "invoke:EventType($1)" && f.Op == "==" && strings.HasPrefix(f.R, "c:") {
+							accepted[f.R] = true
+							one = true
+						}
+					}
+					if !one {
+						got = false
+					}
 				}
 			}
 			if !got {
